@@ -717,14 +717,23 @@ class Interp:
                     s0 = s2.copy()
                     if s0.assume(("cmp", itv.length, "==")):
                         yield from self.block(s.orelse, s0, fr)
-                # run the body to a shape fixpoint (twice is enough for a shape-stable body)
+                # run the body to a shape fixpoint (twice is enough for a shape-stable body); the first
+                # run is under "there is at least one element", the second under "at least two"
                 done = False
-                for s3 in self.assign(s.target, itv.elem, s2, fr):
+                s2b = s2.copy()
+                if not s2b.assume(("cmp", itv.length, ">")):
+                    continue  # provably empty: only the zero-iteration path above exists
+                for s3 in self.assign(s.target, itv.elem, s2b, fr):
                     for kind, v, s4 in self.block(s.body, s3, fr):
                         if kind in ("return", "raise"):
                             continue
                         before = {k: self._shape_key(vv, s4) for k, vv in s4.env.items()}
-                        for s5 in self.assign(s.target, itv.elem, s4, fr):
+                        s4b = s4.copy()
+                        if not s4b.assume(("cmp", itv.length - Dim.const(1), ">")):
+                            done = True
+                            yield "fall", NONE, s4  # exactly one element
+                            continue
+                        for s5 in self.assign(s.target, itv.elem, s4b, fr):
                             for kind2, v2, s6 in self.block(s.body, s5, fr):
                                 if kind2 in ("return", "raise"):
                                     continue
